@@ -132,9 +132,14 @@ var (
 	reSpace = regexp.MustCompile(`\s+`)
 )
 
+// the element at the position the binary search returned is the first element of the tail from there:
+// cells[n] ≡ cells[n:][0]
+var reAtSearch = regexp.MustCompile(`\[call:sort\.Search\]`)
+
 func normSeq(seq []string) string {
 	s := strings.Join(seq, " ; ")
 	s = reOrd.ReplaceAllString(s, "")
+	s = reAtSearch.ReplaceAllString(s, "[call:sort.Search:][i]")
 	s = reIdx0.ReplaceAllString(s, "[i]")
 	s = reIdxP.ReplaceAllString(s, "[i]")
 	s = rePhi.ReplaceAllString(s, "φ")
@@ -247,6 +252,11 @@ func runTrav(c *Ctx) {
 		}
 		t := &Termer{P: p}
 		hs := loopHeaders(fn)
+		if len(hs) == 0 && !sp.noLoop {
+			if h, _ := loopDelegate(fn); h != nil {
+				hs = loopHeaders(h) // the loop lives in a freshly extracted helper; the paths below walk it in place
+			}
+		}
 		if sp.noLoop != (len(hs) == 0) || len(hs) > 1 {
 			c.Undecided(sp.fn+" shape", fn.Pos(), "%d loops; the rule knows this method with %s", len(hs), map[bool]string{true: "no loop", false: "one loop over the cells"}[sp.noLoop])
 			continue
@@ -797,7 +807,7 @@ func DebugEvents(p *Program, names []string, body bool) {
 			if body {
 				_, paths, _ = bodyPaths(p, fn, t)
 			} else {
-				paths, _ = EnumLits(fn.Blocks[0], 0, TabOpts{Termer: t, EventOf: callEvents(p)})
+				paths, _ = EnumLits(fn.Blocks[0], 0, TabOpts{Termer: t, EventOf: callEvents(p), FieldCells: os.Getenv("FIELDS") != "", RunDefers: os.Getenv("DEFERS") != ""})
 			}
 			for i, lp := range paths {
 				ex := "stop"
